@@ -250,6 +250,10 @@ def mon_trace(tid, rec, cfg, fair, ended):
     steps = []
     prev = [dict(dead) for _ in range(n)]
     for s in rec.steps:
+        if any('step did not terminate' in e for e in s['err']):
+            # a step that never came back: what it flooded before being interrupted is not analysed
+            s = dict(s, pubs=s['pubs'][:20], ipubs=s['ipubs'][:20], push=s['push'][:20], rpcfail=s['rpcfail'][:20],
+                     nfail=s.get('nfail', [])[:20])
         post = [_obs(s['st'][f'n{i}'], n) for i in range(1, n + 1)]
         ipubs = [[_idx(a), _idx(b), st] for a, b, st in s['ipubs']]
         # instance state changes that are not published (e.g. CHECKING -> CHECKED): complete from the status RPC
@@ -292,7 +296,8 @@ def mon_trace(tid, rec, cfg, fair, ended):
             'err': bool(s['err']), 'iso': bool(s.get('iso', False)), 'snapchg': bool(s.get('snapchg', False)),
             'user': bool(s.get('user', False)),
             'nfail': [[_idx(a), _idx(b)] for a, b in s.get('nfail', []) if b in rec.c.nodes],
-            'nonadm': bool(s.get('nonadm', False)), 'procchg': bool(s.get('procchg', False))})
+            'nonadm': bool(s.get('nonadm', False)), 'procchg': bool(s.get('procchg', False)),
+            'hang': any('step did not terminate' in e for e in s['err'])})
         if s['a'] == 'Rpc' and s.get('k') == 'end_sync' and s.get('arg'):
             steps[-1]['d'] = _idx(s['arg'])
         prev = post
